@@ -96,11 +96,17 @@ Proof. split; [intros _; split; reflexivity|]. vm_compute. repeat split. Qed.
     is its round-half-even as in [cellI]; the u-faces next to a land cell are masked to zero and the particle
     feels the linear interpolation between its two faces (ROMS.Forcing._read_velocity, sample3DUV). *)
 From Ladim Require Model.Setup Proofs.SetupProofs.
-(** the candidate: x + (flow felt at x) * dt/dx, the flow in force being u * factor(depth class) *)
+(** the candidate: x + (velocity of the set-up's advection scheme at x) * dt/dx, for the flow u given as a
+    function of the fractional step; under EF ([s_adv] = 0) that is x + (flow felt at x) * dt/dx, the flow in
+    force being u(0) * factor(depth class) *)
 Theorem C09_setup_candidate : forall s u v c,
-  SetupProofs.cand s u v c == Setup.vx v + Setup.felt s (u * Setup.cfac s c) (Setup.vx v) * Setup.s_dtdx s.
+  SetupProofs.cand s u v c == Setup.vx v + Setup.adv s u c (Setup.vx v) * Setup.s_dtdx s.
 Proof. exact SetupProofs.cand_value. Qed.
 Print Assumptions C09_setup_candidate.
+Theorem C09_setup_candidate_EF : forall s u v c, Setup.s_adv s = 0%Z ->
+  SetupProofs.cand s u v c == Setup.vx v + Setup.felt s (u 0 * Setup.cfac s c) (Setup.vx v) * Setup.s_dtdx s.
+Proof. intros s u v c E. rewrite SetupProofs.cand_value, (SetupProofs.adv_EF s u c _ E). reflexivity. Qed.
+Print Assumptions C09_setup_candidate_EF.
 (** killed exactly when the candidate leaves the valid interval; the value is kept *)
 Theorem C09_setup_killed_iff_candidate_outside : forall s u v c,
   snd (Setup.move s u v c) = SetupProofs.inside s (SetupProofs.cand s u v c) /\
